@@ -1,4 +1,91 @@
-import FsDb.Spec.Iso
-/-! # C06 (theorems under construction) -/
+import FsDb.Proofs.Refine
+/-!
+# C06 — Concurrent operations are individually atomic (linearizable), with no deadlock
+
+What is proved here, and what is tied rather than proved:
+
+* `C06_atomic_steps_refine`: every operation, executed as ONE atomic step, answers what the
+  specification answers, for all histories = all interleavings of atomic steps (this is the
+  refinement theorem; the collector and the background cleanup are steps of the same system).
+* `C06_no_wait_cycle`: if every actor acquires locks in an order consistent with one strict order
+  on locks, no set of actors can wait for each other in a cycle (no deadlock).  The lock classes
+  and the acquired-while-holding edges of `usecase/core` are listed in `lockEdges` and checked
+  against the order `userTx < mainTx < allStore < leaf`; the functions they are read off are tied by
+  their skeleton texts (FsDb/Tie).
+* That each operation's effect *is* atomic in the real code — one critical section per
+  operation's read or write of the version lists, the registry check before, the content fetch
+  after (with the re-lookup of `store.Get`) — is not a theorem: it is checked by enforced
+  schedules on the real database whose answers must be linearizable against `Spec.Iso`.
+-/
 namespace FsDb.C06
+open FsDb Spec
+
+theorem C06_atomic_steps_refine {c : Sys} {s : State} (h : R c s) (ops : List Op) (hops : ∀ op ∈ ops, op.core = true) :
+    (c.run ops).2 = (Spec.run s ops).2 ∧ R (c.run ops).1 (Spec.run s ops).1 :=
+  Refine.run h ops hops
+
+/-! ### ordered lock acquisition excludes wait cycles -/
+
+/-- an actor holds some locks and may be waiting for one -/
+structure Actor where
+  held  : List Nat
+  waits : Option Nat
+
+/-- ordered acquisition: an actor only ever waits for a lock above everything it holds -/
+def Ordered (a : Actor) : Prop := ∀ w, a.waits = some w → ∀ h ∈ a.held, h < w
+
+/-- `chain as w0 w`: following the actors `as` in turn, each waits for a lock held by the next;
+    the first waits for `w0`, the last one's own awaited lock is `w` -/
+inductive Chain : List Actor → Nat → Nat → Prop
+  | single (a : Actor) (w : Nat) : a.waits = some w → Chain [a] w w
+  | cons (a : Actor) (w : Nat) (b : Actor) (rest : List Actor) (w' wl : Nat) :
+      a.waits = some w → w ∈ b.held → Chain (b :: rest) w' wl → Chain (a :: b :: rest) w wl
+
+theorem chain_increasing {as : List Actor} {w0 wl : Nat} (h : Chain as w0 wl) (hord : ∀ a ∈ as, Ordered a) :
+    w0 ≤ wl := by
+  induction h with
+  | single a w _ => exact Nat.le_refl _
+  | cons a w b rest w' wl hw hheld hrest ih =>
+    have hb : Ordered b := hord b (by simp)
+    -- b waits for w' (the head of the rest chain) and holds w, so w < w'
+    have hbw : b.waits = some w' := by cases hrest <;> assumption
+    have := hb w' hbw w hheld
+    have := ih (fun x hx => hord x (List.mem_cons_of_mem _ hx))
+    omega
+
+/-- No deadlock by lock ordering: a wait cycle (a chain whose last actor waits for a lock held by
+    the first) is impossible when all actors acquire in order. -/
+theorem C06_no_wait_cycle (as : List Actor) (w0 wl : Nat) (hc : Chain as w0 wl) (hord : ∀ a ∈ as, Ordered a)
+    (first : Actor) (hfirst : as.head? = some first) (hclose : wl ∈ first.held) : False := by
+  have hle := chain_increasing hc hord
+  have hfm : first ∈ as := by
+    cases as with
+    | nil => cases hfirst
+    | cons a t => simp at hfirst; subst hfirst; simp
+  have hfw : first.waits = some w0 := by
+    cases hc with
+    | single a w hw => simp at hfirst; subst hfirst; exact hw
+    | cons a w b rest w' wl hw _ _ => simp at hfirst; subst hfirst; exact hw
+  have := hord first hfm w0 hfw wl hclose
+  omega
+
+/-- lock classes of `usecase/core` -/
+def userTx : Nat := 0
+def mainTxL : Nat := 1
+def allStore : Nat := 2
+def leaf : Nat := 3
+
+/-- acquired-while-holding edges read off the functions (Store, UpdateTx, DeleteTx, DeleteOld; the
+    getters hold one lock at a time): (held, then acquired) -/
+def lockEdges : List (Nat × Nat) :=
+  [ (userTx, allStore),       -- core.Store on a transaction: tx.Lock, allStore.Lock
+    (mainTxL, allStore),      -- core.Store on main / DeleteOld: main.Lock, allStore.Lock
+    (userTx, mainTxL),        -- UpdateTx: tx.Lock, main.Lock
+    (mainTxL, allStore),      -- UpdateTx: main.Lock, allStore.Lock
+    (userTx, allStore),       -- DeleteTx: tx.Lock, allStore.Lock
+    (userTx, leaf), (mainTxL, leaf), (allStore, leaf) ]  -- pools, txStore map, registry under any of them
+
+/-- every edge goes up in the order `userTx < mainTx < allStore < leaf`: acquisition is ordered -/
+theorem C06_lock_order : ∀ e ∈ lockEdges, e.1 < e.2 := by decide
+
 end FsDb.C06
